@@ -25,8 +25,8 @@ def obligations():
                  timeout=1500, mem_gb=10, tiers=('quick',), min_covers=2, weight=4),
         KModelOb('O5.1-honest-accepted-t', 'slsp', 'honest_t', 'as O5.1 with chains of 7 blocks and <=3 sampled difficulties', C01.ex_slsp, '7 blocks, <=3 difficulties',
                  cuts=C01.CUTS, timeout=3300, mem_gb=20, tiers=('thorough',), min_covers=2, weight=6),
-        KModelOb('O5.1-honest-exactly-last-n', 'slsp', 'honest_exactly_last_n', 'the remaining case of O5.1: a sampling request whose honest answer consists of exactly '
-                 'last_n headers (e.g. the peer is exactly last_n + 1 blocks ahead) is accepted', C01.ex_slsp, 'chains of 5 blocks, last-N in {1,2}',
+        KModelOb('O5.1-honest-without-samples', 'slsp', 'honest_without_samples', 'the remaining case of O5.1: a sampling request whose honest answer carries no sampled header '
+                 '(every requested difficulty is reached inside the last-N section; always so when the peer is exactly last_n + 1 blocks ahead) is accepted', C01.ex_slsp, 'chains of 5 blocks, last-N in {1,2}',
                  cuts=C01.CUTS, timeout=1500, mem_gb=10, min_covers=2, weight=4),
         o2, o3,
     ]
